@@ -42,11 +42,17 @@ def with_listener(case, script, names, tmp):
         if rep is None:
             fails.append('console listener printed no final report')
         else:
-            exp = {'global iteration count': str(sol[0]), 'local iteration count': str(sol[4]), 'solution value': '%.8f' % sol[2], 'accuracy': '%.8f' % sol[3],
-                   'solution point': str(got['point_repr'])}
+            exp = {'global iteration count': sol[0], 'local iteration count': sol[4], 'solution value': sol[2], 'accuracy': sol[3]}
             for key, val in exp.items():
-                if rep.get(key) != val:
+                try:
+                    shown = float(rep.get(key))
+                except (TypeError, ValueError):
+                    fails.append('console final report has no readable %s (%r)' % (key, rep.get(key))); continue
+                if not (abs(shown - val) <= 1e-7 * max(1.0, abs(val)) or shown == val):     # printed to 8 decimals or more
                     fails.append('console final report shows %s = %r, the solution has %r' % (key, rep.get(key), val))
+            nums = [float(t) for t in re.findall(r'-?\d+\.?\d*(?:[eE][-+]?\d+)?', rep.get('solution point', ''))]
+            if len(nums) != len(sol[1]) or any(abs(a - b) > 1e-6 * max(1.0, abs(b)) for a, b in zip(nums, sol[1])):
+                fails.append('console final report shows solution point %r, the solution has %r' % (rep.get('solution point'), sol[1]))
     return fails
 
 
